@@ -118,7 +118,8 @@ class HoStream(FM.FormulaStream):
         builds = obs.get("builds") or [{"tree": case["tree"], "nz": case["nz"], **obs}]
         for i, b in enumerate(builds):     # every engine that was built must compute ITS expression
             sub = []
-            FM.judge_rows(case, b, lambda row: FM.eval_hb(b["tree"], row, lambda n: b["nz"] or src.get(str(n), False)), sub)
+            cb = {**case, "rows": case["rows"][:b["stopped_at"]]} if "stopped_at" in b else case
+            FM.judge_rows(cb, b, lambda row: FM.eval_hb(b["tree"], row, lambda n: b["nz"] or src.get(str(n), False)), sub)
             if len(builds) > 1:
                 for v in sub:
                     v["what"] = v["what"].split(":")[0] + f": engine #{i + 1} of {len(builds)} built in this scenario (nones_are_zeros={b['nz']}): " + v["what"].split(":", 1)[1]
@@ -137,6 +138,12 @@ class HoStream(FM.FormulaStream):
             out.append("source_engine_nones_are_zeros")
         if case.get("share"):
             out.append("shared_builder_objects")
+        if case.get("names"):
+            out.append("operand_engines_with_equal_names")
+        if case.get("zones") and len({json.dumps(z) for z in case["zones"].values()}) > 1:
+            out.append("inputs_in_different_time_zones")
+        if any("stopped_at" in b for b in obs.get("builds", [])):
+            out.append("an_engine_sharing_inputs_stopped_mid_run")
         if case.get("pre"):
             out.append("sub_builder_built_then_extended")
         if len(obs.get("builds", [])) > 1:
@@ -202,7 +209,12 @@ class PoolStream(FM.FormulaStream):
         a, b = ["b", "+", ["v", 1], ["v", 2]], ["b", "-", ["v", 1], ["b", "*", ["v", 2], ["v", 3]]]
         yield {"kind": "pool", "requests": [[a, 0, False], [b, 0, False], [a, 1, False], [a, 0, False], [b, 2, True], [a, 1, True]],
                "rows": [{f"{m}:{i}": (m + 2) * 100 + 10 * i + k for m in (0, 1, 2) for i in (1, 2, 3)} for k in range(3)]}
-        for _ in range(self.n_quick if tier == "quick" else self.n_thorough):
+        yield {"kind": "pool", "requests": [[a, 2, False], [a, 3, False]], "compose": [[0, "-", 1]],
+               "rows": [{"2:1": 10, "2:2": 20, "3:1": 1, "3:2": 2}, {"2:1": 5, "2:2": 5, "3:1": 7, "3:2": 1}]}
+        n = self.n_quick if tier == "quick" else self.n_thorough
+        for _ in range(n // 8):
+            yield FM.gen_pool_long_case(rng)
+        for _ in range(n):
             yield FM.gen_pool_case(rng)
 
     def to_coq(self, case, obs):
@@ -220,10 +232,20 @@ class PoolStream(FM.FormulaStream):
             for v in sub:
                 v["what"] = v["what"].split(":")[0] + f": request #{i + 1} ({FM.render(ast, [1])!r} on metric {FM.POOL_METRICS[m]}): " + v["what"].split(":", 1)[1]
             out += sub
+
+        def val(i, row):
+            a, m, _ = case["requests"][i]
+            return FM.finite_or_none(FM.eval_ast(a, FM.pool_row(row, m), FM.pool_first_flag(case, i)))
+        for cd, (i, op, j) in zip(obs.get("composed", []), case.get("compose", [])):
+            sub = []
+            FM.judge_rows(case, cd, lambda row: FM.binop_ref(op, val(i, row), val(j, row)), sub)
+            for v in sub:
+                v["what"] = v["what"].split(":")[0] + f": composed formula (request #{i + 1}) {op} (request #{j + 1}): " + v["what"].split(":", 1)[1]
+            out += sub
         return out
 
     def key(self, case, obs):
-        return json.dumps([case["requests"], case["rows"]], sort_keys=True)
+        return json.dumps([case["requests"], case.get("compose"), case["rows"]], sort_keys=True)
 
     def labels(self, case, obs):
         out = [f"requests={len(case['requests'])}"]
@@ -234,6 +256,10 @@ class PoolStream(FM.FormulaStream):
             out.append("identical_request_repeated")
         if len({m for _, m in reqs}) < len({(a, m) for a, m in reqs}):
             out.append("two_strings_one_metric")
+        if case.get("compose"):
+            out.append("pool_engines_composed")
+        if any(len(FM.render(a, [1])) > 40 for a, _, _ in case["requests"]):
+            out.append("formula_string_longer_than_40")
         return out + FM.row_labels(case)
 
 
